@@ -63,13 +63,21 @@ pub fn run(args: &Args) -> Report {
         // address, same length) with different contents on consecutive calls of one thread. A
         // result must depend on the bytes, never on where they live.
         if idx % 8 == 0 {
-            let clen = 1 + rng.usize_below(60);
+            // every other time the consecutive contexts form a family: same length, same long common
+            // prefix (64 bytes and more), only the tail differs
+            let family = idx % 16 == 8;
+            let clen = if family { *rng.pick(&[65usize, 66, 80, 128, 129, 300, 1024, 1030]) } else { 1 + rng.usize_below(60) };
             let mut ctx_buf = String::with_capacity(clen);
             let mut key_buf = [0u8; 32];
             let mut in_buf = vec![0u8; n.min(3000)];
             for round in 0..3 {
-                ctx_buf.clear();
-                for _ in 0..clen {
+                if family && round > 0 {
+                    let keep = clen - 1 - rng.usize_below((clen - 64).min(3));
+                    ctx_buf.truncate(keep);
+                } else {
+                    ctx_buf.clear();
+                }
+                while ctx_buf.len() < clen {
                     ctx_buf.push((b'a' + rng.below(26) as u8) as char);
                 }
                 rng.fill(&mut key_buf);
